@@ -34,6 +34,8 @@ class ConditionalExpressionTransformer(converter.Base):
             expr_repr)
     '''
     expr_repr = parser.unparse(node.test, include_encoding_marker=False).strip()
+    # Conditional expressions may be nested in the test or in either branch.
+    node = self.generic_visit(node)
     return templates.replace_as_expression(
         template,
         test=node.test,
